@@ -1,4 +1,6 @@
-(** C01 — executable model of every custom-module computation that ranges over a Go map.
+(** C01 — executable model of every custom-module computation that ranges over a Go map, and of the one
+    consensus-path computation that hands keys from one goroutine to another (omap.SortedMap.Range: [clock],
+    [range_recv], [keys_seen]).
 
     A Go map has no iteration order: every `for … range m` may visit the keys in ANY order, a new
     one at every execution of the statement and on every replica.  The model makes that explicit:
@@ -98,19 +100,63 @@ Record cfg := mk_cfg {
   c_storage_sorted  : bool;  (* Storage.SortedKeys sorts; commitCtx ranges over its result only *)
   c_omap_sorted     : bool;  (* SortedMap.ensureOrder sorts the collected keys *)
   c_tally_via_omap  : bool;  (* tallyVotesAndUpdatePrices has no map range of its own (goes through omap) *)
-  c_remove_via_omap : bool   (* removeInvalidVotes has no map range of its own *)
+  c_remove_via_omap : bool;  (* removeInvalidVotes has no map range of its own *)
+  c_range_blocking  : bool   (* every goroutine that feeds a channel (omap.SortedMap.Range) is the only goroutine of its function,
+                                offers every key with a plain blocking send — no select, no timer, no deadline — and closes
+                                the channel when it is done *)
 }.
 
 Definition cfg_ok (c : cfg) : bool :=
   c_sudo_sorted c && c_dirties_sorted c && c_storage_sorted c && c_omap_sorted c &&
-  c_tally_via_omap c && c_remove_via_omap c.
+  c_tally_via_omap c && c_remove_via_omap c && c_range_blocking c.
 
-Definition cfg_all : cfg := mk_cfg true true true true true true.
+Definition cfg_all : cfg := mk_cfg true true true true true true true.
 
 (** the keys in the order the loop body sees them: the code first collects them in map order
     ([ord ks]) and, when the site sorts, sorts the collected slice *)
 Definition order_keys (sorted : bool) (ord : list Z -> list Z) (ks : list Z) : list Z :=
   if sorted then isort (ord ks) else ord ks.
+
+(* ------------------------------------------------------------------ wall clock / goroutine timing: omap.SortedMap.Range *)
+
+(** `for k := range om.Range()`: Range starts ONE producer goroutine that offers orderedKeys, in order, on a channel and
+    closes it; the loop (the consumer) receives until the channel is closed.  What the consumer does between two receives —
+    the loop body: Tally, store writes — takes a different amount of WALL-CLOCK time on every replica (machine speed, disk
+    stalls, GC pauses, scheduling).  A *clock* makes that explicit: [δ path] = the milliseconds the consumer of the range
+    loop executed at [path] spends before it comes (back) to the receive for the 1st, 2nd, … key (missing entries: no
+    delay).  NO assumption is made on a clock.  Determinism = the result does not depend on δ.
+
+    [timeout = None]: the producer offers a key with a plain `ch <- k` and waits for the consumer however long it takes.
+    [timeout = Some t]: the producer waits at most t ms (`select { case ch <- k: … case <-timer.C: return }`, a `default:`
+    clause is t = 0) and then gives up and closes the channel: the consumer's loop ends early. *)
+Definition clock := list Z -> list Z.
+Definition clock_fast : clock := fun _ => [].
+Definition clock_stall_second (ms : Z) : clock := fun _ => [0; ms].
+
+Fixpoint range_recv (timeout : option Z) (delays : list Z) (keys : list Z) : list Z :=
+  match keys with
+  | [] => []
+  | k :: rest =>
+      match delays with
+      | [] => keys
+      | d :: ds =>
+          match timeout with
+          | Some t => if t <? d then [] else k :: range_recv timeout ds rest
+          | None => k :: range_recv timeout ds rest
+          end
+      end
+  end.
+
+(** the bound after which a producer that does NOT block gives up.  Only the variant flag [c_range_blocking = false] uses it;
+    the theorems about the blocking producer do not depend on it and the refutation works for every finite bound. *)
+Definition range_give_up_ms : Z := 1000.
+Definition range_timeout (c : cfg) : option Z := if c_range_blocking c then None else Some range_give_up_ms.
+
+(** the keys a loop body sees: through omap (sorted keys, handed over by the producer goroutine) or, when the code ranges
+    over the Go map itself, in map order *)
+Definition keys_seen (c : cfg) (via_omap : bool) (π : sched) (δ : clock) (site : list Z) (ks : list Z) : list Z :=
+  if via_omap then range_recv (range_timeout c) (δ site) (order_keys (c_omap_sorted c) (π site) ks)
+  else π site ks.
 
 (* ------------------------------------------------------------------ x/sudo: EditSudoers *)
 
@@ -199,11 +245,11 @@ Definition apply_vote (m : kv perf) (v : vote) : kv perf :=
     end) m.
 
 (** removeInvalidVotes: delete the pairs that fail, visiting pairs in (sorted) key order *)
-Definition remove_invalid (c : cfg) (π : sched) (path : list Z) (pvs : kv ballot) : kv ballot :=
+Definition remove_invalid (c : cfg) (π : sched) (δ : clock) (path : list Z) (pvs : kv ballot) : kv ballot :=
   fold_left (fun m p => match kv_get p m with
                         | Some b => if b_valid b then m else kv_del p m
                         | None => m end)
-    (order_keys (c_remove_via_omap c && c_omap_sorted c) (π (2 :: path)) (kv_keys pvs)) pvs.
+    (keys_seen c (c_remove_via_omap c) π δ (2 :: path) (kv_keys pvs)) pvs.
 
 (** tallyVotesAndUpdatePrices: per pair, Tally mutates the performances, SetPrice writes the store *)
 Definition tally_pair (pvs : kv ballot) (st : kv perf * kv Z) (pair : Z) : kv perf * kv Z :=
@@ -212,10 +258,10 @@ Definition tally_pair (pvs : kv ballot) (st : kv perf * kv Z) (pair : Z) : kv pe
   | Some b => (fold_left apply_vote (b_votes b) (fst st), kv_set pair (b_rate b) (snd st))
   end.
 
-Definition tally (c : cfg) (π : sched) (path : list Z) (pvs : kv ballot) (perfs : kv perf) (prices : kv Z)
+Definition tally (c : cfg) (π : sched) (δ : clock) (path : list Z) (pvs : kv ballot) (perfs : kv perf) (prices : kv Z)
   : kv perf * kv Z :=
   fold_left (tally_pair pvs)
-    (order_keys (c_tally_via_omap c && c_omap_sorted c) (π (3 :: path)) (kv_keys pvs)) (perfs, prices).
+    (keys_seen c (c_tally_via_omap c) π δ (3 :: path) (kv_keys pvs)) (perfs, prices).
 
 (** incrementMissCounters: range over the performances MAP, one store write per validator *)
 Definition miss_step (perfs : kv perf) (mc : kv Z) (v : Z) : kv Z :=
@@ -341,7 +387,7 @@ Definition init_state : state :=
   mk_state [] (mk_evm [] 0 []) [] [] [] 0 (mk_omap [] []).
 
 (** results visible to the consensus layer (DeliverTx data / EndBlock outputs), as numbers *)
-Definition step (c : cfg) (abi : list (Z * Z)) (π : sched) (path : list Z) (s : state) (m : msg) : state * list Z :=
+Definition step (c : cfg) (abi : list (Z * Z)) (π : sched) (δ : clock) (path : list Z) (s : state) (m : msg) : state * list Z :=
   match m with
   | MSudoEdit add cs =>
       let stored := edit_sudoers c (π (10 :: path)) (st_sudo s) add cs in
@@ -353,8 +399,8 @@ Definition step (c : cfg) (abi : list (Z * Z)) (π : sched) (path : list Z) (s :
        [ev_next e])
   | MOracleEndBlock vals pvs npairs pool =>
       let perfs0 := new_perfs vals in
-      let pvs1 := remove_invalid c π path (kv_of_list pvs) in
-      let '(perfs1, prices) := tally c π path pvs1 perfs0 (st_prices s) in
+      let pvs1 := remove_invalid c π δ path (kv_of_list pvs) in
+      let '(perfs1, prices) := tally c π δ path pvs1 perfs0 (st_prices s) in
       let miss := incr_miss π path perfs1 (st_miss s) in
       let perfs2 := abstain_by_omission π path npairs perfs1 in
       let '(out, distributed) := reward_winners π path perfs2 pool (st_outstanding s) (st_distributed s) in
@@ -368,17 +414,18 @@ Definition step (c : cfg) (abi : list (Z * Z)) (π : sched) (path : list Z) (s :
       (s, match method_by_id (π (11 :: path)) abi sel with Some n => [n] | None => [-1] end)
   end.
 
-Fixpoint run_from (c : cfg) (abi : list (Z * Z)) (π : sched) (i : Z) (s : state) (h : list msg) : state * list (list Z) :=
+Fixpoint run_from (c : cfg) (abi : list (Z * Z)) (π : sched) (δ : clock) (i : Z) (s : state) (h : list msg) : state * list (list Z) :=
   match h with
   | [] => (s, [])
   | m :: t =>
-      let '(s1, r) := step c abi π [i] s m in
-      let '(s2, rs) := run_from c abi π (i + 1) s1 t in
+      let '(s1, r) := step c abi π δ [i] s m in
+      let '(s2, rs) := run_from c abi π δ (i + 1) s1 t in
       (s2, r :: rs)
   end.
 
-Definition run (c : cfg) (abi : list (Z * Z)) (π : sched) (h : list msg) : state * list (list Z) :=
-  run_from c abi π 0 init_state h.
+(** one replica = one map-iteration schedule π and one wall clock δ *)
+Definition run (c : cfg) (abi : list (Z * Z)) (π : sched) (δ : clock) (h : list msg) : state * list (list Z) :=
+  run_from c abi π δ 0 init_state h.
 
 (** selectors of an ABI are pairwise distinct (and so are the names, it is a Go map) *)
 Definition abi_ok (abi : list (Z * Z)) : Prop := NoDup (map fst abi) /\ NoDup (map snd abi).
